@@ -17,7 +17,11 @@ pub struct Prng(pub u64);
 
 impl Prng {
     pub fn new(seed: u64) -> Self {
-        Prng(seed.wrapping_mul(0x9E3779B97F4A7C15).wrapping_add(0x1234_5678_9ABC_DEF1))
+        // mix the seed first: consecutive seeds must not give the same stream shifted by one draw
+        let mut p = Prng(seed ^ 0x1234_5678_9ABC_DEF1);
+        let a = p.next();
+        let b = p.next();
+        Prng(a ^ b.rotate_left(29) ^ seed.wrapping_mul(0xD6E8_FEB8_6659_FD93))
     }
     pub fn next(&mut self) -> u64 {
         self.0 = self.0.wrapping_add(0x9E3779B97F4A7C15);
